@@ -375,6 +375,12 @@ def run_for(prop, pl):
                     res.known.setdefault(ks[0], dict(rec, what=bad))
                 else:
                     res.violations.append({'what': bad, 'input': rec})
+            elif prop != 'C04':
+                # (not for C04: the real scheduler may interleave a replayed schedule differently and run into the recorded finding
+                # F-C04-b, whose class is only recognisable on the symbolic side.)  The native run must break the property on every
+                # one of three attempts: real tokio is free to order ready tasks differently from the symbolic schedule.
+                res.xval_path('schedule %s %s' % (bool(obs['loop_done']), sorted(set(st.split(':')[0].rstrip('0123456789') for st in obs.get('free_steps', obs['steps'])))),
+                              lambda r: replay_for(prop, r, every=3), lambda: {'scenario': pl, 'steps': obs['steps'], 'flags': obs['flags']})
             if len(res.samples) < 1:
                 res.samples.append({'schedule': obs['steps'], 'lines_written': obs['lines'], 'events': obs['events']})
             res.take_stats(pr.ctx.stats); pr.ctx.stats.__init__()
@@ -608,10 +614,12 @@ def parse_native_outcome(o):
 def norm(x):
     return json.loads(json.dumps(x))
 
-def replay_for(prop, rec):
+def replay_for(prop, rec, every=0):
+    """every=n: the violation has to show in each of n native attempts (cross-validation of passing paths); default: in one of six"""
     inp = rec.get('input') or rec
     pl = inp['scenario']
-    tries = 6
+    every = every or (3 if rec.get('xval') else 0)
+    tries = every or 6
     if pl.get('family') == 'password':
         pw = pl.get('pw', 'hunter 2')
         spec = ('opt:' if pl.get('entry') == 'opt' else 'pw:') + ('-' if pw is None else hexs(pw.encode()))
@@ -667,6 +675,8 @@ def replay_for(prop, rec):
             c['results'] = [(r, norm(o)) for r, o in c['results']]
         bad = JUDGES[prop](obs)
         last = (bad, obs)
-        if bad:
+        if every and not bad:
+            return False, 'native schedule satisfies the property (attempt %d)' % (k + 1)
+        if bad and (not every or k == tries - 1):
             return True, 'native schedule (attempt %d): %s' % (k + 1, bad)
     return False, 'native schedule does not violate the property in %d attempts (events %s, lines %s)' % (tries, last[1]['events'], last[1]['lines'][-4:])
